@@ -1,6 +1,7 @@
 import RV.Lemmas.CtlSts
+import RV.Props.C11
 /-!
-# The partition-style StatefulSet-like and DaemonSet control planes (attached to C08, C01, C05, C06, C07)
+# The partition-style StatefulSet-like and DaemonSet control planes (attached to C08, C01, C05, C06, C07, C11)
 
 Every statement quantifies over **every** workload of the four Go representations (typed apps/v1 StatefulSet, typed
 Advanced StatefulSet, any other StatefulSet-like workload through `unstructured`, typed Advanced DaemonSet), every
@@ -12,6 +13,10 @@ the snapshots of the real code.
 
 One defect found by this slice (`dsNoRollingUpdate`: nil dereference in the DaemonSet `CalculateBatchContext`) is
 repaired in the code; the model is of the repaired code (`no_crash`).  Two further facts are visible as explicit
+The last section (C11 / C07) is about **the pods behind `status.updatedReadyReplicas`**: for these workloads the number
+is not a status field — `BuildController` lists the pods and counts; the theorems there quantify over every list of
+pods (any length, any order, any mix of owners, phases, labels and conditions).
+
 hypotheses / witnesses rather than findings:
 `MaxInt16` holds back every pod only of a workload with at most `MaxInt16` replicas (`sizeOK`, witness
 `hold_beyond_maxInt16_FALSE`), and a repeated `Finalize` re-issues its (then ineffective) patch.
@@ -718,5 +723,366 @@ example :
 
 /-- the hypotheses of `walk_exposure_bound` / `upgradeBatch_suffices` are satisfiable -/
 example : sizeOK 10 = true ∧ nnOK 10 (some 3) = true ∧ quiet [mk .initialize, mk .upgradeBatch 1] = true := by decide
+
+/-! ## C11 / C07 — the pods behind `updatedReadyReplicas` and the readiness verdict
+
+`realController.BuildController` (StatefulSet-like and DaemonSet controls) computes `UpdatedReadyReplicas` by listing the
+workload's pods (`util.ListOwnedPods`) and counting those that are not terminating, consistent with the update revision
+and ready; `EnsureBatchPodsReadyAndLabeled` feeds that number to `BatchContext.IsBatchReady`.  Every statement below
+quantifies over **every** list of pods. -/
+
+/-- **`updatedReady_counts_live_ready_updated`** — for every update revision and every list of pods in the cluster:
+    (1) the counter the code computes (`ListOwnedPods`, then the `WrappedPodCount` loop) is exactly the number of pods that
+        are the workload's own (in its namespace, selected, owned directly or through an owner it controls, not
+        completed), **live** (no deletion timestamp), **of the update revision** (`IsConsistentWithRevision`) and
+        **ready** (`IsPodReady`);
+    (2) adding, anywhere in the list, a pod that is terminating, of another revision, not ready, not the workload's,
+        completed, not selected or in another namespace never changes it;
+    (3) adding a live ready pod of the update revision raises it by exactly one;
+    (4) it never exceeds the number of live pods of the workload. -/
+theorem updatedReady_counts_live_ready_updated (revision : String) (pods : List Pod) :
+    updatedReadyOf revision pods = ((pods.filter (liveReadyUpdated revision)).length : Nat) ∧
+    (∀ xs ys p, pods = xs ++ ys →
+       (p.terminating = true ∨ isConsistent p revision = false ∨ isPodReady p = false ∨
+        isOwned p.owner = false ∨ isCompleted p = true ∨ p.selMatch = false ∨ p.inNamespace = false) →
+       updatedReadyOf revision (xs ++ p :: ys) = updatedReadyOf revision pods) ∧
+    (∀ xs ys p, pods = xs ++ ys → liveReadyUpdated revision p = true →
+       updatedReadyOf revision (xs ++ p :: ys) = updatedReadyOf revision pods + 1) ∧
+    updatedReadyOf revision pods ≤ liveCount pods := by
+  refine ⟨updatedReadyOf_eq revision pods, ?_, ?_, ?_⟩
+  · intro xs ys p hp hbad
+    have hn : liveReadyUpdated revision p = false := by
+      unfold liveReadyUpdated livePod
+      rcases hbad with h | h | h | h | h | h | h <;> simp [h]
+    subst hp
+    simp only [updatedReadyOf_eq, lruCount_append, lruCount_cons, hn, Bool.false_eq_true, if_false]
+    omega
+  · intro xs ys p hp hgood
+    subst hp
+    simp only [updatedReadyOf_eq, lruCount_append, lruCount_cons, hgood, if_true]
+    omega
+  · rw [updatedReadyOf_eq]
+    unfold liveReadyUpdatedCount liveCount
+    have : (pods.filter (liveReadyUpdated revision)).length ≤ (pods.filter livePod).length := by
+      have hsub : pods.filter (liveReadyUpdated revision) =
+          (pods.filter livePod).filter (fun p => isConsistent p revision && isPodReady p) := by
+        rw [List.filter_filter]
+        apply List.filter_congr
+        intro p _
+        unfold liveReadyUpdated
+        cases livePod p <;> cases isConsistent p revision <;> cases isPodReady p <;> rfl
+      rw [hsub]
+      exact List.length_filter_le _ _
+    omega
+
+/-- **a counted pod that stops counting** — replace, anywhere in the list, an updated ready pod by any pod that is not
+    one (or by nothing: the pod is gone): the counter drops by exactly one. -/
+theorem updatedReady_drops_by_one (revision : String) (xs ys : List Pod) (p : Pod) (q : Option Pod)
+    (hp : liveReadyUpdated revision p = true) (hq : ∀ q', q = some q' → liveReadyUpdated revision q' = false) :
+    updatedReadyOf revision (xs ++ q.toList ++ ys) = updatedReadyOf revision (xs ++ p :: ys) - 1 := by
+  simp only [updatedReadyOf_eq, lruCount_append, lruCount_cons, hp, if_true]
+  cases q with
+  | none => simp only [Option.toList, lruCount_append]; unfold liveReadyUpdatedCount; simp; omega
+  | some q' =>
+    have := hq q' rfl
+    simp only [Option.toList, lruCount_cons, this, Bool.false_eq_true, if_false]
+    unfold liveReadyUpdatedCount; simp; omega
+
+/-- **C11 `sts_updated_ready_exact` (what the driver evaluates)** — whatever `EnsureBatchPodsReadyAndLabeled` answers (any
+    workload, any pods, any plan, any fault): the counters `BuildController` left are exact (`countersExact`: the size,
+    the workload controller's `updatedReplicas`, and — wherever the pods are listed — exactly the number of live ready
+    pods of the update revision); it has none only when it answers with an error. -/
+theorem counters_exact (rel : Rel) (batch : Int) (d : Option Wl) (cl : Cluster) (f : Fault) (o : VerdictOut)
+    (h : planeVerdict rel batch d cl f = .val o) :
+    countersSound d cl o = true := by
+  obtain ⟨_, hcases⟩ := planeVerdict_cases rel batch d cl f o h
+  unfold countersSound
+  rcases hcases with ⟨hc, _, hv, _⟩ | ⟨w, r, hd, hr, _, hc, _⟩
+  · cases d <;> simp [hc, hv]
+  · subst hd
+    simp only [hc, countersOf_exact w r cl hr]
+
+/-- **C11 (what the driver evaluates)** — whatever the check answers: it issued no write, and if the answer is `Ready`
+    the pods say so (`readyMeansPods`). -/
+theorem verdict_sound (rel : Rel) (batch : Int) (d : Option Wl) (cl : Cluster) (f : Fault) (o : VerdictOut)
+    (h : planeVerdict rel batch d cl f = .val o) :
+    verdictSound rel batch d cl o = true := by
+  obtain ⟨hw, hcases⟩ := planeVerdict_cases rel batch d cl f o h
+  unfold verdictSound
+  rcases hcases with ⟨_, _, hv, _⟩ | ⟨w, r, hd, hr, _, _, hrest⟩
+  · simp [hw, isReady, hv]
+  · subst hd
+    simp only [hw, beq_self_eq_true, Bool.true_and]
+    split
+    · rename_i hready
+      rcases hrest with ⟨hr0, _, _⟩ | ⟨hr0, e, he, _, hv⟩
+      · simp [readyMeansPods, hr, hr0]
+      · simp only [isReady, hv, beq_iff_eq, Verdict.is.injEq] at hready
+        have hs := RV.Props.C11.ready_sound _ none
+          (by rw [batchCtxOf]; simp only [countersOf_updatedReady]; exact readyPods_nonneg w cl) hready
+        simp only [readyMeans, batchCtxOf, countersOf_updatedReady, Bool.and_true] at hs
+        simp only [readyMeansPods, hr, hr0, if_false, he]
+        simpa [countersOf] using hs
+    · rfl
+
+/-- the number the verdict relies on is **the pods** wherever the code lists them: every typed kind (native / Advanced
+    StatefulSet, Advanced DaemonSet) and every unstructured workload whose status reports no positive
+    `updatedReadyReplicas` -/
+theorem readyPods_listed (w : Wl) (cl : Cluster) (hl : needsList w = true) :
+    readyPods w cl = ((cl.pods.filter (liveReadyUpdated cl.status.updateRevision)).length : Nat) := by
+  simp [readyPods, hl, liveReadyUpdatedCount]
+
+theorem needsList_typed (w : Wl) (h : w.kind ≠ .unstructured) : needsList w = true := by
+  unfold needsList
+  cases hk : w.kind <;> first | rfl | exact absurd hk h
+
+/-- **C11 `verdict_ready_means_pods`** — for every workload, every cluster, every plan, batch index and fault: if the
+    control plane reports the batch **Ready**, then the workload exists and either is empty (size 0: the batch calls for
+    nothing) or, for the plan entry of the batch and `desired := DesiredUpdatedReplicas` of that entry,
+    * the workload's controller reports at least `desired` updated pods,
+    * the **live ready pods of the update revision** (`readyPods`: counted on the pods of the cluster, `readyPods_listed`)
+      plus the failure threshold reach `desired`, and
+    * at least one such pod exists when any is called for. -/
+theorem verdict_ready_means_pods (rel : Rel) (batch : Int) (d : Option Wl) (cl : Cluster) (f : Fault) (o : VerdictOut)
+    (h : planeVerdict rel batch d cl f = .val o) (hok : o.verdict = .is .ok) :
+    ∃ w r, d = some w ∧ replicasOf w = some r ∧
+      (r = 0 ∨ ∃ e, entryOf rel batch = some e ∧
+        cl.status.updated ≥ desiredOf (bkind w) r e rel.noNeedUpdate ∧
+        allowedUnavailable rel.failureThreshold cl.status.updated + readyPods w cl ≥ desiredOf (bkind w) r e rel.noNeedUpdate ∧
+        (desiredOf (bkind w) r e rel.noNeedUpdate > 0 → readyPods w cl ≥ 1)) := by
+  have hs := verdict_sound rel batch d cl f o h
+  simp only [verdictSound, isReady, hok, beq_self_eq_true, if_true, Bool.and_eq_true] at hs
+  obtain ⟨_, hm⟩ := hs
+  cases d with
+  | none => cases hm
+  | some w =>
+    simp only [readyMeansPods] at hm
+    cases hr : replicasOf w with
+    | none => simp [hr] at hm
+    | some r =>
+      refine ⟨w, r, rfl, hr, ?_⟩
+      simp only [hr] at hm
+      by_cases hr0 : r = 0
+      · exact Or.inl hr0
+      · right
+        simp only [hr0, if_false] at hm
+        cases he : entryOf rel batch with
+        | none => simp [he] at hm
+        | some e =>
+          simp only [he, Bool.and_eq_true, decide_eq_true_eq] at hm
+          obtain ⟨⟨h1, h2⟩, h3⟩ := hm
+          exact ⟨e, rfl, h1, h2, fun hd => by have := h3 hd; omega⟩
+
+/-- one pod degrading (`degradePod`: not ready / terminating / relabelled to no revision / deleted / failed / disowned)
+    takes exactly itself out of the count -/
+theorem readyPods_degraded (w : Wl) (cl : Cluster) (h : Degrade) (i : Nat) (p : Pod) (hl : needsList w = true)
+    (hp : cl.pods[i]? = some p) :
+    readyPods w (degraded cl h i) =
+      readyPods w cl - (if liveReadyUpdated cl.status.updateRevision p = true then 1 else 0) := by
+  simp only [readyPods, hl, if_true, degraded]
+  exact lruCount_degradeAt _ h i cl.pods p hp
+
+/-- **C11 `verdict_falls_back`** — for every cluster and every one of its updated ready pods: when that pod turns not
+    ready, starts terminating, loses its revision label, is deleted, fails or loses its owner, the number the next check
+    relies on is one lower, and if what is left no longer satisfies the batch (`readyMeansPods` false: ready pods below
+    the failure threshold, or none left while some are called for) the next check does **not** answer `Ready` — the
+    state falls back. -/
+theorem verdict_falls_back (rel : Rel) (batch : Int) (w : Wl) (cl : Cluster) (f : Fault) (h : Degrade) (i : Nat) (p : Pod)
+    (hl : needsList w = true) (hp : cl.pods[i]? = some p) (hc : liveReadyUpdated cl.status.updateRevision p = true) :
+    readyPods w (degraded cl h i) = readyPods w cl - 1 ∧
+    ∀ o2, planeVerdict rel batch (some w) (degraded cl h i) f = .val o2 →
+      readyMeansPods rel batch w (degraded cl h i) = false → o2.verdict ≠ .is .ok := by
+  refine ⟨by rw [readyPods_degraded w cl h i p hl hp]; simp [hc], ?_⟩
+  intro o2 h2 hm hok
+  have hs := verdict_sound rel batch (some w) (degraded cl h i) f o2 h2
+  simp only [verdictSound, isReady, hok, beq_self_eq_true, if_true, Bool.and_eq_true] at hs
+  rw [hm] at hs
+  exact absurd hs.2 (by decide)
+
+/-- **C11 (what the driver evaluates on two consecutive checks)** — `fallsBack`: the counter moves by exactly the pod that
+    degraded, and the second verdict is `Ready` only if the pods that are left say so. -/
+theorem verdict_falls_back_oracle (rel : Rel) (batch : Int) (w : Wl) (cl : Cluster) (f : Fault) (h : Degrade) (i : Nat)
+    (o1 o2 : VerdictOut) (h1 : planeVerdict rel batch (some w) cl f = .val o1)
+    (h2 : planeVerdict rel batch (some w) (degraded cl h i) f = .val o2) :
+    fallsBack rel batch w cl h i o1 o2 = true := by
+  unfold fallsBack
+  have hs := verdict_sound rel batch (some w) (degraded cl h i) f o2 h2
+  simp only [verdictSound, Bool.and_eq_true] at hs
+  have hsecond : (if isReady o2 = true then readyMeansPods rel batch w (degraded cl h i) else true) = true := hs.2
+  rw [hsecond, Bool.and_true]
+  cases hp : cl.pods[i]? with
+  | none => rfl
+  | some p =>
+    obtain ⟨_, c1⟩ := planeVerdict_cases rel batch (some w) cl f o1 h1
+    obtain ⟨_, c2⟩ := planeVerdict_cases rel batch (some w) (degraded cl h i) f o2 h2
+    rcases c1 with ⟨hc1, _⟩ | ⟨w1, r1, hd1, hr1, _, hc1, _⟩
+    · simp [hc1]
+    · rcases c2 with ⟨hc2, _⟩ | ⟨w2, r2, hd2, hr2, _, hc2, _⟩
+      · simp [hc1, hc2]
+      · cases hd1; cases hd2
+        simp only [hc1, hc2, countersOf_updatedReady]
+        cases hl : needsList w
+        · simp [readyPods, hl]
+        · simp only [if_true, beq_iff_eq]
+          exact readyPods_degraded w cl h i p hl hp
+
+/-- **C07 (what the driver evaluates)** — completeness: whenever the reads succeed and the pods satisfy the batch, the
+    answer is `Ready`. -/
+theorem verdict_complete (rel : Rel) (batch : Int) (d : Option Wl) (cl : Cluster) (f : Fault) (o : VerdictOut)
+    (h : planeVerdict rel batch d cl f = .val o) :
+    verdictComplete rel batch d cl f o = true := by
+  obtain ⟨_, hcases⟩ := planeVerdict_cases rel batch d cl f o h
+  unfold verdictComplete
+  cases d with
+  | none => rfl
+  | some w =>
+    simp only
+    split
+    · rename_i hcond
+      simp only [Bool.and_eq_true] at hcond
+      obtain ⟨hro, hm⟩ := hcond
+      rcases hcases with ⟨_, _, _, hd | ⟨w', hd, hro'⟩⟩ | ⟨w', r, hd, hr, _, _, hrest⟩
+      · cases hd
+      · cases hd; rw [hro] at hro'; cases hro'
+      · cases hd
+        rcases hrest with ⟨_, _, hv⟩ | ⟨hr0, e, he, _, hv⟩
+        · simp [isReady, hv]
+        · simp only [readyMeansPods, hr, hr0, if_false, he] at hm
+          have : readyMeans (batchCtxOf rel w (countersOf w r cl) e) none = true := by
+            simp only [readyMeans, batchCtxOf, countersOf_updatedReady, Bool.and_true]
+            simpa [countersOf] using hm
+          simp [isReady, hv, RV.Props.C11.ready_complete _ none this]
+    · rfl
+
+/-- **C07 `verdict_ready_when_pods_ready`** — for every workload, cluster and plan: when the Get of the workload and (where
+    the pods are listed) the List succeed and the pods satisfy the batch (`readyMeansPods`: the workload is empty, or
+    enough updated pods, live ready ones within the failure threshold, at least one when any is called for), the check
+    neither panics nor errs: it answers **Ready** — a batch whose pods are ready is never kept waiting. -/
+theorem verdict_ready_when_pods_ready (rel : Rel) (batch : Int) (w : Wl) (cl : Cluster) (f : Fault)
+    (hro : readsOK f w = true) (hm : readyMeansPods rel batch w cl = true) :
+    ∃ o, planeVerdict rel batch (some w) cl f = .val o ∧ o.verdict = .is .ok := by
+  cases hp : planeVerdict rel batch (some w) cl f with
+  | val o =>
+    have hc := verdict_complete rel batch (some w) cl f o hp
+    simp only [verdictComplete, hro, hm, Bool.and_self, if_true, isReady, beq_iff_eq] at hc
+    exact ⟨o, rfl, hc⟩
+  | panic =>
+    exfalso
+    simp only [readsOK, Bool.and_eq_true, bne_iff_ne, ne_eq, Bool.not_eq_true', Bool.and_eq_false_iff,
+      beq_eq_false_iff_ne] at hro
+    obtain ⟨hg, hl⟩ := hro
+    have hl' : ¬ (needsList w = true ∧ f = .list) := by
+      intro ⟨a, b⟩
+      rcases hl with h | h
+      · exact h b
+      · rw [a] at h; cases h
+    simp only [readyMeansPods] at hm
+    unfold planeVerdict at hp
+    cases hr : replicasOf w with
+    | none => simp [hr] at hm
+    | some r =>
+      simp only [build, hg, if_false, hr, hl'] at hp
+      simp only [hr] at hm
+      by_cases hr0 : r = 0
+      · simp [hr0] at hp
+      · simp only [hr0, if_false] at hp hm
+        by_cases hb : batch < 0
+        · simp [entryOf, hb] at hm
+        · simp only [hb, if_false] at hp
+          cases he : rel.batches[batch.toNat]? with
+          | none => simp [entryOf, hb, he] at hm
+          | some e => simp [he] at hp
+
+/-- **no crash (the readiness check)** — like `no_crash` for the three calls: for every workload an API server can hold and
+    every plan whose current batch exists (`callInputOK` of the `UpgradeBatch` call, which reads the same plan entry) the
+    check does not panic, whatever the pods and whatever the fault. -/
+theorem verdict_no_crash (rel : Rel) (batch : Int) (d : Option Wl) (cl : Cluster) (f : Fault) :
+    noCrash rel { call := .upgradeBatch, fault := f, batch := batch, bpNil := false, edit := Edit.none } d
+      (isPanic (planeVerdict rel batch d cl f)) = true := by
+  unfold noCrash
+  cases hp : planeVerdict rel batch d cl f with
+  | val o => simp [isPanic]
+  | panic =>
+    simp only [isPanic, Bool.not_true]
+    unfold planeVerdict at hp
+    by_cases hg : f = .get
+    · simp [build, hg] at hp
+    · cases d with
+      | none => simp [build, hg] at hp
+      | some w =>
+        cases hr : replicasOf w with
+        | none => simp [callInputOK, hr]
+        | some r =>
+          by_cases hl : needsList w = true ∧ f = .list
+          · simp [build, hg, hr, hl] at hp
+          · simp only [build, hg, if_false, hr, hl] at hp
+            by_cases hr0 : r = 0
+            · simp [hr0] at hp
+            · simp only [hr0, if_false] at hp
+              by_cases hb : batch < 0
+              · simp [callInputOK, hr, hr0, entryOf, hb]
+              · simp only [hb, if_false] at hp
+                cases he : rel.batches[batch.toNat]? with
+                | none => simp [callInputOK, hr, hr0, entryOf, hb, he]
+                | some e => simp [he] at hp
+
+/-! ### non-vacuity of the section (tests on literals) -/
+
+/-- a ready pod of the update revision `wl-6d8f9c7b5`, owned by the workload -/
+def exPod : Pod :=
+  { inNamespace := true, selMatch := true, phase := "Running", owner := .this, terminating := false,
+    hashLabel := "", revLabel := "wl-6d8f9c7b5", conds := [("PodScheduled", "True"), ("Ready", "True")] }
+
+/-- four updated ready pods (one labelled with the hash only, one owned through an intermediate owner) among pods of
+    all seven other combinations of (terminating, revision, ready) and pods `ListOwnedPods` drops -/
+def exPods : List Pod :=
+  [exPod, { exPod with terminating := true }, { exPod with revLabel := "6d8f9c7b5" },
+   { exPod with revLabel := "wl-5c9d7f6b8" }, { exPod with conds := [("Ready", "False"), ("Ready", "True")] },
+   { exPod with terminating := true, conds := [] }, { exPod with terminating := true, revLabel := "" },
+   { exPod with revLabel := "xwl-6d8f9c7b5", conds := [("Ready", "Unknown")] },
+   { exPod with terminating := true, revLabel := "rev-old", conds := [("ContainersReady", "True")] },
+   { exPod with owner := .other true, revLabel := "", hashLabel := "6d8f9c7b5" },
+   { exPod with owner := .other false }, { exPod with owner := .none }, { exPod with phase := "Succeeded" },
+   { exPod with selMatch := false }, { exPod with inNamespace := false }, exPod]
+
+/-- a native StatefulSet of 10 replicas in the middle of its rollout -/
+def exSts : Wl :=
+  { kind := .native, replicas := some 10, us := .present "RollingUpdate" (.present (.int 6) none false), control := .this,
+    inProgress := true, tmpl := 2, tmplPresent := true, updatedReady := 0, rest := 0 }
+
+def exCluster : Cluster := { status := { updateRevision := "wl-6d8f9c7b5", updated := 4, ready := 9 }, pods := exPods }
+
+def exRel : Rel := { batches := [pct 20, pct 40, pct 100], rollbackAnno := false, updated := 0, noNeedUpdate := none }
+
+/-- the count is 4 of 16 pods (7 of them live pods of the workload); batch 1 (40 % of 10 = 4) is `Ready`; when pod 2 starts terminating
+    3 are left and the verdict falls back to `notReady`; with a failure threshold of 1 it would still be `Ready`
+    (`verdict_ready_means_pods`, `verdict_falls_back` and `verdict_ready_when_pods_ready` are not vacuous) -/
+example :
+    updatedReadyOf "wl-6d8f9c7b5" exPods = 4 ∧ liveCount exPods = 7 ∧
+    needsList exSts = true ∧ exPods[2]?.map (liveReadyUpdated "wl-6d8f9c7b5") = some true ∧
+    (match planeVerdict exRel 1 (some exSts) exCluster .none with
+     | .val o => o.verdict == .is .ok && o.counters == some { replicas := 10, updated := 4, updatedReady := 4 }
+     | .panic => false) = true ∧
+    readyMeansPods exRel 1 exSts exCluster = true ∧ readsOK .none exSts = true ∧
+    readyMeansPods exRel 1 exSts (degraded exCluster .terminating 2) = false ∧
+    (match planeVerdict exRel 1 (some exSts) (degraded exCluster .terminating 2) .none with
+     | .val o => o.verdict == .is .notReady && o.counters == some { replicas := 10, updated := 4, updatedReady := 3 }
+     | .panic => false) = true ∧
+    (match planeVerdict { exRel with failureThreshold := some (int 1) } 1 (some exSts) (degraded exCluster .terminating 2) .none with
+     | .val o => o.verdict == .is .ok
+     | .panic => false) = true := by
+  decide +kernel
+
+/-- the same pods behind an unstructured workload whose status reports `updatedReadyReplicas: 7`: the pods are not
+    listed, the reported number is what the verdict relies on (`readyPods`), a failing List does not matter -/
+example :
+    needsList { exSts with kind := .unstructured, updatedReady := 7 } = false ∧
+    (match planeVerdict exRel 1 (some { exSts with kind := .unstructured, updatedReady := 7 }) exCluster .list with
+     | .val o => o.verdict == .is .ok && o.counters == some { replicas := 10, updated := 4, updatedReady := 7 }
+     | .panic => false) = true ∧
+    (match planeVerdict exRel 1 (some exSts) exCluster .list with
+     | .val o => o.verdict == .err
+     | .panic => false) = true := by
+  decide +kernel
 
 end RV.Props.CtlSts
